@@ -191,6 +191,14 @@ def run(ck, only=None):
     for i, c in enumerate(extra):
         c.tag = f"K{50000 + i}"
     recs = recs + extra
+    # layout-neutral attributes that libclang does not expose (bindgen only learns "some unknown attribute is present")
+    neutral = gen_c.enumerate_records(2, atoms=["char", "int", "llong", "double", "ptr", "arr3c", "nest5", "bfA"], rattrs=[r[0] for r in gen_c.NEUTRAL_RECORD_ATTRS])
+    neutral += gen_c.enumerate_records(2, atoms=["char", "int", "llong", "double", "ptr"], rattrs=["plain", "packed"], mattrs=["mdep", "munused"])
+    if ck.tier == "quick":
+        neutral = [c for k, c in enumerate(neutral) if len(c.atoms) == 1 or (k + ck.seed) % 3 == 0]
+    for i, c in enumerate(neutral):
+        c.tag = f"K{70000 + i}"
+    recs = recs + neutral
     if only:
         recs = [c for c in recs if c.cid == only.get("cid")]
     batches = [(f"b{i // BATCH}", recs[i:i + BATCH]) for i in range(0, len(recs), BATCH)]
